@@ -1738,6 +1738,26 @@ impl IdmServerProxyReadTransaction<'_> {
                 e
             })?;
 
+        // The validity window must not depend on what the requester is allowed to read: the
+        // access-reduced entry above lacks valid_from / expire for RADIUS servers, so take them
+        // from the unreduced entry.
+        let entry = self.qs_read.internal_search_uuid(rate.target)?;
+        let within_valid_window = Account::check_within_valid_time(
+            ct,
+            entry
+                .get_ava_single_datetime(Attribute::AccountValidFrom)
+                .as_ref(),
+            entry
+                .get_ava_single_datetime(Attribute::AccountExpire)
+                .as_ref(),
+        );
+        if !within_valid_window {
+            security_info!("Account has expired or is not yet valid, not releasing RADIUS token");
+            return Err(OperationError::InvalidAccountState(
+                "Account Expired".to_string(),
+            ));
+        }
+
         account.to_radiusauthtoken(ct)
     }
 
